@@ -44,6 +44,11 @@ Proof.
         (conj quiet_recv_altsvc (conj recv_data_closed recv_wu_closed)))))).
 Qed.
 
+(* acknowledge_received_data, which does not go through the state machine, is a no-op once closed *)
+Theorem C19_acknowledge_on_closed_is_a_noop :
+  forall n sid c, closed c -> 0 < sid -> 0 <= n -> api_acknowledge_received_data n sid c = (c, Ok tt).
+Proof. exact ack_closed_noop. Qed.
+
 (* receiving GOAWAY discards the output not yet handed to the application *)
 Theorem C19_goaway_discards_pending_output :
   forall last code dbg c c' r, recv_goaway last code dbg c = (c', r) -> is_ok r = true -> c_out c' = [].
@@ -62,4 +67,5 @@ Print Assumptions C19_table_goaway_closes.
 Print Assumptions C19_closed_is_absorbing.
 Print Assumptions C19_emitting_calls_raise_and_append_nothing.
 Print Assumptions C19_received_frames_raise_on_closed.
+Print Assumptions C19_acknowledge_on_closed_is_a_noop.
 Print Assumptions C19_goaway_discards_pending_output.
